@@ -20,18 +20,17 @@ def run(ctx):
     if b:
         rb = cfg.call_blocks(b, ["agdb::transaction_mut::TransactionMut::rollback"])
         cm = cfg.call_blocks(b, ["agdb::transaction_mut::TransactionMut::commit"])
-        # the is_ok() test on the closure result selects commit vs rollback
-        sws = []
-        for i, t in cfg.calls(b):
-            if (cfg.callee(t) or "").endswith("::is_ok"):
-                sws += cfg.bool_switches(b, cfg.derived_locals(b, [t["d"][0]]))
-        ok = bool(rb) and bool(cm) and bool(sws)
+        # the test of the closure's result (is_ok()/is_err() or a match on it) selects commit vs rollback
+        fcalls = [t["d"][0] for i, t in cfg.calls(b) if (cfg.callee_decl(t) or cfg.callee(t) or "").endswith(
+            ("ops::FnOnce::call_once", "ops::FnMut::call_mut", "ops::Fn::call"))]
+        tests = cfg.result_edges(b, fcalls) if fcalls else []
+        ok = bool(rb) and bool(cm) and bool(tests)
         if ok:
-            sw = sws[0]
-            ok = (cfg.find_path(b, [0], rb, removed_edges=[sw["false_edge"]]) is None and
-                  cfg.find_path(b, [0], cm, removed_edges=[sw["true_edge"]]) is None)
-            # and on the false edge every path to return passes rollback
-            ok = ok and cfg.must_pass(b, [sw["false_edge"][1]], rb, cfg.return_blocks(b))[0]
+            # some test of the result separates the two: rollback only on its Err side, commit only on its Ok side,
+            # and from the Err edge every path to a return passes rollback
+            ok = any(cfg.find_path(b, [0], rb, removed_edges=[te["err_edge"]]) is None and
+                     cfg.find_path(b, [0], cm, removed_edges=[te["ok_edge"]]) is None and
+                     cfg.must_pass(b, [te["err_edge"][1]], rb, cfg.return_blocks(b))[0] for te in tests)
         ctx.ob("R32b", "transaction_mut:rollback-on-Err", ok,
                "closure Err => TransactionMut::rollback on every path; Ok => commit" if ok else
                "transaction_mut does not reach rollback on every path after the closure failed", b.where)
